@@ -21,7 +21,7 @@ CONSTANTS MaxLen, Emit
 SymHash(m) == <<"H", m>>
 
 Kinds == {"good", "replayAcc", "replayRej", "replayAccFirst", "replayRejFirst", "stale", "wrongK", "wrongU",
-          "flipProof", "flipData", "garbage", "truncProof"}
+          "flipProof", "flipData", "garbage", "truncProof", "reflect"}
 
 VARIABLES ctr,       \* nonce counter (all draws)
           hist,      \* attempt kinds so far
@@ -63,6 +63,7 @@ Attempt(k) ==
          [] k = "flipProof" -> <<cd, <<"flip", good>> >>
          [] k = "flipData"  -> << <<200 + ctr, 0>>, good>>
          [] k = "garbage"   -> <<cd, <<"junk", ctr>> >>
+         [] k = "reflect"   -> <<s.chal, ReconnectProof(s.U, s.chal, s.chal, s.K)>>   \* client data = the server's challenge
          [] k = "truncProof" -> <<cd, <<"trunc", good>> >>      \* a prefix of the good proof, the rest zeroed
 
 Try(k) ==
@@ -90,10 +91,10 @@ Spec == Init /\ [][Next]_mvars
 LastKind == hist[Len(hist)]
 
 ReconnectIff ==
-    (Len(hist) > 0) => (out.ok = (LastKind = "good"))
+    (Len(hist) > 0) => (out.ok = (LastKind \in {"good", "reflect"}))
 
 LegitAlwaysReconnects ==
-    (Len(hist) > 0 /\ LastKind = "good") => out.ok
+    (Len(hist) > 0 /\ LastKind \in {"good", "reflect"}) => out.ok
 
 ChallengeSingleUse ==
     \A i, j \in 1..Len(accepted) : i # j => accepted[i] # accepted[j]
